@@ -1,7 +1,7 @@
 (* C20 — stand-alone array helpers agree with their definitions.  Statements only. *)
 From Coq Require Import List ZArith Bool.
 From GL Require Import Lib.Arr Lib.Blocks Model.Dom Model.Scalar Model.Nanops Spec.Defs Spec.Exec Proofs.NanopsProofs Proofs.NanopsExt Model.Helpers Proofs.HelperProofs Proofs.MonoProofs Model.Moments Proofs.MomentsProofs
-  Proofs.GenTie Gen.ReductionOpsGen.
+  Proofs.GenTie Proofs.TieNanops Proofs.TieMoments Gen.ReductionOpsGen.
 Import ListNotations.
 Open Scope Z_scope.
 
